@@ -58,7 +58,12 @@ def run(ctx):
                 "snmp-server community labcore RO\n", "username LabCore password labcore\n", "hostname LabCore seattle labcore\n", "enable password seattle-core\n",
                 # digit-free lines into which an EARLIER stage writes digits that are a listed AS number: the first secret's pseudonym ends in 0, the
                 # pseudonym of the word "uniform" under salt "s" is 688565 (md5("s" + word)[:6] happens to be all digits)
-                "snmp-server community plainsecret RO\n", "interface uniform description none\n", "banner uniform;\n"]
+                "snmp-server community plainsecret RO\n", "interface uniform description none\n", "banner uniform;\n",
+                # lines the secrets stage SCRUBS from its match onward, with an address, a sensitive word and an AS number BEFORE the match: the later
+                # stages still have work to do on what is left of the line
+                "interface Cable1/0 description uplink to 23.45.67.89 cable shared-secret 0 S3cr3tValue\n",
+                "set system login user lab peer 65001 at 11.22.33.44 encrypted-password abcdef\n",
+                " description seattle 2001:db8::17 as 65001 cable shared-secret lab\n"]
     for sub in subsets:
         for ipflag in (["a"] if "a" not in sub else ["a", "u"]):
             base = dict(salt="s", words=c12.WORDS + ["lab", "uniform"], asnums=c12.ASNUMS + ["10", "65001", "0", "688565"], pfx="-", nets="-", b4=8, b6=8, ipflag=ipflag, reserved=["LabCore", "Seattle-core"])
